@@ -33,6 +33,14 @@ def cases_for(ctx):
     for lit in [ast.Date("2020-02-29"), ast.Time("23:59:59"), ast.DateTime("2020-01-01T10:00:00Z"), ast.DateTime("2020-01-01T10:00:00.5+01:00"), ast.GUID("01234567-89ab-cdef-0123-456789abcdef"),
                 ast.Float("1.5"), ast.Float("-2.5E-2"), ast.Integer("-7"), ast.Integer("+3"), ast.Boolean("TRUE"), ast.Null()]:
         nodes += [ast.Compare(ast.Eq(), I("x1"), lit), ast.Compare(ast.NotEq(), lit, I("x1")), ast.Compare(ast.In(), I("x1"), ast.List([lit, lit]))]
+    # list-typed arguments of the overloaded built-ins (the list overloads exist on Athena only; the others must refuse): argument ORDER matters
+    L3, L2, L1 = ast.List([ast.Integer("1"), ast.Integer("2"), ast.Integer("3")]), ast.List([ast.Integer("2"), ast.Integer("3")]), ast.List([ast.Integer("9")])
+    nodes += [ast.Compare(ast.Eq(), sc.call("substring", L3, ast.Integer("1"), ast.Integer("2")), L2), ast.Compare(ast.Eq(), sc.call("substring", L3, ast.Integer("1")), L2),
+              ast.Compare(ast.Eq(), sc.call("length", sc.call("substring", L3, ast.Integer("0"), ast.Integer("2"))), ast.Integer("2")),
+              ast.Compare(ast.Eq(), sc.call("concat", L3, L1), L2), ast.Compare(ast.Eq(), sc.call("concat", L1, L3), L2), ast.Compare(ast.Eq(), sc.call("length", L3), ast.Integer("3")),
+              sc.call("contains", L3, L1), sc.call("contains", L1, L3), sc.call("startswith", L3, L1), sc.call("endswith", L3, L2), sc.call("hassubset", L3, L2), sc.call("hassubset", L2, L3),
+              sc.call("hassubsequence", L3, L2), ast.Compare(ast.Eq(), sc.call("indexof", L3, L1), ast.Integer("0")),
+              ast.Compare(ast.Eq(), sc.call("substring", sc.call("concat", L3, L1), ast.Integer("2"), ast.Integer("1")), L1)]
     # field spellings: athena sanitiser, keywords as names, long names
     for nm in ["Name", "eac", "SELECT", "a1_b", "é", "naïve_Col", "x" * 40, "İd", "K", "_u", "ns9"]:
         nodes.append(ast.Compare(ast.Eq(), ast.Identifier(nm), ast.Integer("1")))
